@@ -11,9 +11,9 @@ const creds = "credentials"
 
 func init() {
 	register(&PropDef{
-		ID:    "C58",
-		Pkgs:  []string{tr, "grpc"},
-		Claim: "Decides the structural part: the per-call credential's metadata fetch is unreachable from the arms where it requires transport security and the connection is not secure or below PrivacyAndIntegrity (and those arms return Unauthenticated); both credential fetches and their error returns precede every header field and the hand-over to the writer; dial-time credentials that require security make the handshake fail on a connection with a valid security level below PrivacyAndIntegrity before the transport is marked secure; NewClient validates 'insecure'+requiring credentials; credential metadata keys are lower-cased and validated. The dial-time validation inspects the credentials in effect (the explicit transport credentials, else the bundle's) and asks every per-RPC credential; the call-credentials presence arms skip the fetch only when the call has none.",
+		ID:          "C58",
+		Pkgs:        []string{tr, "grpc"},
+		Claim:       "Decides the structural part: the per-call credential's metadata fetch is unreachable from the arms where it requires transport security and the connection is not secure or below PrivacyAndIntegrity (and those arms return Unauthenticated); both credential fetches and their error returns precede every header field and the hand-over to the writer; dial-time credentials that require security make the handshake fail on a connection with a valid security level below PrivacyAndIntegrity before the transport is marked secure; NewClient validates 'insecure'+requiring credentials; credential metadata keys are lower-cased and validated. The dial-time validation inspects the credentials in effect (the explicit transport credentials, else the bundle's) and asks every per-RPC credential; the call-credentials presence arms skip the fetch only when the call has none.",
 		NotDecided:  []string{"behaviour of third-party TransportCredentials that report no CommonAuthInfo (accepted by design)", "what a PerRPCCredentials implementation does with the context it is given"},
 		Assumptions: []string{"credentials.CheckSecurityLevel and RequestInfoFromContext behave as documented"},
 		Technique:   "static analysis: refusing-arm unreachability and dominating guards on go/ssa branch facts, constant-flow of status codes, value-origin of arguments",
@@ -85,19 +85,89 @@ func c58(c *Ctx) {
 		pai := ConstOfObj(c.konst(creds, "PrivacyAndIntegrity"))
 		secLevel := c.field(creds, "CommonAuthInfo", "SecurityLevel")
 		lvl := FieldLoad(secLevel)
-		c.Unreachable(st, "weak-level-refused", requires, Cmp(lvl, token.NEQ, invalid), Cmp(lvl, token.LSS, pai))
-		for _, b := range blocksWhere(f, requires, Cmp(lvl, token.NEQ, invalid), Cmp(lvl, token.LSS, pai)) {
-			for _, in := range b.Instrs {
-				if r, ok := in.(*ssa.Return); ok {
-					c.Expect(provablyNonNil(r.Results[1], r, 0), r, f, "weak-level-returns-error", "the refusing arm returns a nil error")
+		rtsCM := Callee(creds, "PerRPCCredentials.RequireTransportSecurity")
+		// the check may be written in NewHTTP2Client itself or in a helper of the package that NewHTTP2Client calls and
+		// whose error result it tests before going on (helper form: obligations below are split between the two)
+		var helper *ssa.Function
+		var helperCall *ssa.Call
+		if len(callsIn(f, rtsCM)) == 0 {
+			for _, b := range f.Blocks {
+				for _, in := range b.Instrs {
+					if call, ok := in.(*ssa.Call); ok {
+						if g := call.Call.StaticCallee(); g != nil && g.Pkg == f.Pkg && len(g.Blocks) > 0 && len(callsIn(g, rtsCM)) > 0 {
+							if helper != nil {
+								panic(missingStep{"more than one security-checking helper called from NewHTTP2Client"})
+							}
+							helper, helperCall = g, call
+						}
+					}
 				}
 			}
+		}
+		if helper == nil {
+			c.Unreachable(st, "weak-level-refused", requires, Cmp(lvl, token.NEQ, invalid), Cmp(lvl, token.LSS, pai))
+			for _, b := range blocksWhere(f, requires, Cmp(lvl, token.NEQ, invalid), Cmp(lvl, token.LSS, pai)) {
+				for _, in := range b.Instrs {
+					if r, ok := in.(*ssa.Return); ok {
+						c.Expect(provablyNonNil(r.Results[1], r, 0), r, f, "weak-level-returns-error", "the refusing arm returns a nil error")
+					}
+				}
+			}
+		} else {
+			res := helper.Signature.Results()
+			errIdx := res.Len() - 1
+			// in the helper: from the weak-level arm no return with a possibly-nil error is reachable
+			nRet := 0
+			for _, r := range returnsOf(helper) {
+				if r.Block() == helper.Recover || provablyNonNil(r.Results[errIdx], r, 0) {
+					continue
+				}
+				nRet++
+				c.Unreachable(r, "weak-level-refused", requires, Cmp(lvl, token.NEQ, invalid), Cmp(lvl, token.LSS, pai))
+			}
+			c.Expect(nRet >= 1, nil, helper, "weak-level-refused", "the security-checking helper has no success return")
+			// in NewHTTP2Client: the transport is marked secure only with the helper's error tested nil
+			ri := errIdx
+			if res.Len() == 1 {
+				ri = 0
+			}
+			hc := func(cc *ssa.CallCommon) bool { return cc == &helperCall.Call }
+			c.ValueIs(st, st.Val, "weak-level-refused", SetWhen(IsNil(CallRes(hc, ri))))
 		}
 		hsErr := CallRes(Callee(creds, "TransportCredentials.ClientHandshake"), 2)
 		c.ValueIs(st, st.Val, "isSecure-only-after-handshake", SetWhen(IsNil(hsErr)))
 		// the credentials checked at the handshake are exactly those the transport will attach to RPCs
 		fPRC := c.field(tr, "http2Client", "perRPCCreds")
 		stored := one(c, "store to http2Client.perRPCCreds", storesToField(f, fPRC))
+		if helper != nil {
+			rq := one(c, "RequireTransportSecurity call in the helper", callsIn(helper, rtsCM))
+			argOf := func(v ssa.Value) ssa.Value { // the NewHTTP2Client argument bound to the helper parameter v
+				for i, gp := range helper.Params {
+					if strip(v) == ssa.Value(gp) && i < len(helperCall.Call.Args) {
+						return helperCall.Call.Args[i]
+					}
+				}
+				return nil
+			}
+			var ranged ssa.Value
+			if u, ok := strip(rq.Common().Value).(*ssa.UnOp); ok {
+				if ia, ok := u.X.(*ssa.IndexAddr); ok {
+					ranged = argOf(ia.X)
+				}
+			}
+			c.Expect(ranged != nil && strip(ranged) == strip(stored.Val), rq, helper, "checked-creds-are-attached-creds", "the credentials whose security requirement is checked at the handshake are not the set stored in the transport for attaching to RPCs")
+			nTA := 0
+			for _, in := range instrsWhere(helper, func(in ssa.Instruction) bool { ta, ok := in.(*ssa.TypeAssert); return ok && ta.CommaOk }) {
+				ta := in.(*ssa.TypeAssert)
+				if _, isIface := ta.AssertedType.Underlying().(*types.Interface); isIface && reachableBlocks(rq.Block())[ta.Block()] {
+					nTA++
+					a := argOf(ta.X)
+					c.Expect(a != nil && CallRes(Callee(creds, "TransportCredentials.ClientHandshake"), 1)(a), ta, helper, "level-from-handshake-authinfo", "the security level compared is not the one reported by this handshake")
+				}
+			}
+			c.Expect(nTA >= 1, nil, helper, "level-from-handshake-authinfo", "the helper does not read the handshake's security level")
+			return
+		}
 		rq := one(c, "RequireTransportSecurity call in NewHTTP2Client", callsIn(f, Callee(creds, "PerRPCCredentials.RequireTransportSecurity")))
 		var ranged ssa.Value
 		if u, ok := strip(rq.Common().Value).(*ssa.UnOp); ok {
@@ -115,6 +185,7 @@ func c58(c *Ctx) {
 				}
 			}
 		}
+
 	})
 	c.Ob("dial-validation", "R2", "NewClient rejects the combination of 'insecure' transport credentials and a per-RPC credential that requires transport security before returning a ClientConn", 2, func() {
 		f := c.fn("grpc", "ClientConn.validateTransportCredentials")
